@@ -245,6 +245,9 @@ func (w *c02World) run(out *verifh.Out, wlens []int, blens []int, e c02Edit, sho
 	}()
 	hs.Wait()
 	if werr != nil || rerr != nil {
+		// the proxy never touches the handshake messages and short reads are legal: a handshake
+		// that fails here means the written bytes are never delivered.  Recorded as a case whose
+		// first Read fails.
 		out.Comment(fmt.Sprintf("handshake failed: %v %v", werr, rerr))
 		out.Cover("noise.handshake_failed")
 		a1.Close()
@@ -252,6 +255,15 @@ func (w *c02World) run(out *verifh.Out, wlens []int, blens []int, e c02Edit, sho
 		a2.Close()
 		b1.Close()
 		wg.Wait()
+		hl := []int64{1, 0, int64(len(wlens))}
+		if !writerIsInit {
+			hl[1] = 1
+		}
+		for _, l := range wlens {
+			hl = append(hl, int64(l))
+		}
+		hl = append(hl, 0, 0, 1, 1, int64(blens[0]), 2, 0, 1)
+		out.Case(hl)
 		return
 	}
 	total := 0
